@@ -183,6 +183,36 @@ def run(chk):
         want = {"fin": (0, 0x80), "rsv0": (0, 0x40), "rsv1": (0, 0x20), "rsv2": (0, 0x10), "opcode": (0, 0x0F), "mask": (1, 0x80), "length": (1, 0x7F)}
         for k, w in want.items():
             chk.ob("R5.header_bits", DEC, f"{k} = header[{w[0]}] & 0x{w[1]:02X}", dec_masks.get(k) == w, f"decoder extracts {k} with {dec_masks.get(k)}")
+        # the header bytes are looked at before the buffer is reused: the 16-bit length form reads the extended length into `header` itself,
+        # so a field extracted from header[..] after that read is taken from the length bytes
+        hl = next((i for i in range(1, b.argc + 1) if b.local_name(i) == "header" or "[u8; 2]" in (b.local_ty(i) or "")), None)
+        if hl is not None:
+            clobber = []
+            for blk_, t_ in b.calls():
+                for a_, ty_ in zip(t_["args"], t_.get("arg_tys") or []):
+                    if ty_.startswith("&mut") and desc_contains(describe(prog, b, a_), lambda y: y[0] == "param" and y[1] == hl):
+                        clobber.append(blk_)
+            def reads_header(x):
+                if isinstance(x, dict):
+                    if x.get("l") == hl and isinstance(x.get("p"), list) and any(e and e[0] in ("i", "ci") for e in x["p"]):
+                        return True
+                    return any(reads_header(v) for k_, v in x.items() if k_ != "dest")
+                if isinstance(x, list):
+                    return any(reads_header(v) for v in x)
+                return False
+            late = []
+            for cb_ in clobber:
+                after = b.reachable(b.succs(cb_))
+                for bi_ in sorted(after):
+                    blk_ = b.blocks[bi_]
+                    if blk_.get("cleanup"):
+                        continue
+                    if any(reads_header(st_.get("rv")) for st_ in blk_["stmts"] if "rv" in st_) or (blk_["term"] and blk_["term"]["k"] == "switch" and reads_header(blk_["term"].get("discr"))):
+                        late.append(bi_)
+            chk.ob("R5.header_bits", DEC, "no header field is extracted after the header buffer was reused for the extended length", not late,
+                   "header[..] is read after read_exact(&mut header): for 16-bit-length frames the field is taken from the length bytes (RSV bits lost / spurious)",
+                   where=b.where(late[0]) if late else "")
+            chk.extra["header_buffer_reuse_sites"] = len(clobber)
         # extended lengths
         facts = {}
         for blk, t in b.calls_to(r"num::<impl u(16|64)>::from_be_bytes$|from_le_bytes$|from_ne_bytes$"):
